@@ -148,7 +148,8 @@ def _hist_cases(rng, tier):
         ops = ["dp:0:%s" % impl.lst(str, [84 + H, H, H, 0, 0]), "dp:0:%s" % impl.lst(str, [84 + H, H, H, 0, 1]),
                "dp:0:%s" % impl.lst(str, [i, j]), "dp:0:%s" % impl.lst(str, [i, j, 7]), "dp:0:%s" % impl.lst(str, [i]),
                "dp:2:%s" % impl.lst(str, [1, 2]), "dp:2:%s" % impl.lst(str, [1, 3]), "dp:0:%s" % impl.lst(str, [j, i]),
-               "xk:1", "xk:2", "xk:4"] + gen_history(rng, 8)
+               "xk:1", "xk:2", "xk:4", "xk:0", "dp:0:%s" % impl.lst(str, [j]), "ckd:0:%d" % i, "xk:5", "ckd:5:%d" % j,
+               "dp:0:%s" % impl.lst(str, [i, i])] + gen_history(rng, 8)
         yield "hist ent:%s:-:-:%s %s" % (sx(e), rng.choice("01"), ";".join(ops)), "shared-private-object-history"
 
 
